@@ -21,20 +21,20 @@ interest (`hist`), because `Rewind`/`Seek` must work from whatever state earlier
 namespace Badger
 
 /-- `it`, in its current (fresh) state, is a cursor over `all` positioned at the end. -/
-def Sat (cmp : Bytes → Bytes → Ordering) (it : AnyIter) (all : List Entry) : Prop :=
+def Sat (cmp : Bytes → Bytes → Ordering) (it : AnyIter) (all : List ItEntry) : Prop :=
   ∃ S : IterSpec it.ops cmp all, S.R it.st []
 
 section Generic
-variable {σ : Type} {o : IterOps σ} {cmp : Bytes → Bytes → Ordering} {all : List Entry}
+variable {σ : Type} {o : IterOps σ} {cmp : Bytes → Bytes → Ordering} {all : List ItEntry}
 
-theorem IterSpec.cur_eq (S : IterSpec o cmp all) {s : σ} {L : List Entry} (h : S.R s L) :
+theorem IterSpec.cur_eq (S : IterSpec o cmp all) {s : σ} {L : List ItEntry} (h : S.R s L) :
     o.cur s = L.head? := by
   unfold IterOps.cur
   cases L with
   | nil => simp [S.valid h]
   | cons e L => simp [S.valid h, S.key h, S.value h]
 
-theorem IterSpec.apply_R (S : IterSpec o cmp all) {s : σ} {L : List Entry} (h : S.R s L)
+theorem IterSpec.apply_R (S : IterSpec o cmp all) {s : σ} {L : List ItEntry} (h : S.R s L)
     (op : IterOp) :
     S.R (o.apply s op)
       (match op with
@@ -49,13 +49,13 @@ theorem IterSpec.apply_R (S : IterSpec o cmp all) {s : σ} {L : List Entry} (h :
     | nil => exact S.next_nil h
     | cons e L => exact S.next h
 
-theorem IterSpec.run_R (S : IterSpec o cmp all) {s : σ} {L : List Entry} (h : S.R s L)
+theorem IterSpec.run_R (S : IterSpec o cmp all) {s : σ} {L : List ItEntry} (h : S.R s L)
     (ops : List IterOp) : ∃ L', S.R (o.run s ops) L' := by
   induction ops generalizing s L with
   | nil => exact ⟨L, h⟩
   | cons op ops ih => exact ih (S.apply_R h op)
 
-theorem IterSpec.collect_eq (S : IterSpec o cmp all) {s : σ} {L : List Entry} (h : S.R s L)
+theorem IterSpec.collect_eq (S : IterSpec o cmp all) {s : σ} {L : List ItEntry} (h : S.R s L)
     (n : Nat) : o.collect n s = L.take n := by
   induction n generalizing s L with
   | zero => simp [IterOps.collect]
@@ -67,13 +67,13 @@ theorem IterSpec.collect_eq (S : IterSpec o cmp all) {s : σ} {L : List Entry} (
 /-- Two cursors over the same list that are positioned alike stay alike under every
     sequence of calls (so they are observationally equivalent). -/
 theorem IterSpec.run_sim {σ' : Type} {o' : IterOps σ'} (S : IterSpec o cmp all)
-    (S' : IterSpec o' cmp all) {s : σ} {s' : σ'} {L : List Entry} (h : S.R s L) (h' : S'.R s' L)
+    (S' : IterSpec o' cmp all) {s : σ} {s' : σ'} {L : List ItEntry} (h : S.R s L) (h' : S'.R s' L)
     (ops : List IterOp) : ∃ L', S.R (o.run s ops) L' ∧ S'.R (o'.run s' ops) L' := by
   induction ops generalizing s s' L with
   | nil => exact ⟨L, h, h'⟩
   | cons op ops ih => exact ih (S.apply_R h op) (S'.apply_R h' op)
 
-theorem IterSpec.valid_after_nexts (S : IterSpec o cmp all) {s : σ} {L : List Entry}
+theorem IterSpec.valid_after_nexts (S : IterSpec o cmp all) {s : σ} {L : List ItEntry}
     (h : S.R s L) (n : Nat) :
     o.valid (o.run s (List.replicate n .next)) = decide (n < L.length) := by
   induction n generalizing s L with
@@ -93,7 +93,7 @@ end Generic
 /-- One level: `NewMergeIterator([a, b], reverse)` over children that are cursors over
     `allA`, `allB` is a cursor over their merge.  `a`, `b` are arbitrary iterators, e.g.
     themselves `MergeIterator`s. -/
-theorem C21_merge_level (rev : Bool) (a b : AnyIter) (allA allB : List Entry)
+theorem C21_merge_level (rev : Bool) (a b : AnyIter) (allA allB : List ItEntry)
     (ha : Sat (dcmp rev) a allA) (hb : Sat (dcmp rev) b allB) :
     Sat (dcmp rev) (newMerge2 a b rev) (mergeLists (dcmp rev) allA allB) := by
   obtain ⟨SA, hA⟩ := ha
@@ -101,11 +101,11 @@ theorem C21_merge_level (rev : Bool) (a b : AnyIter) (allA allB : List Entry)
   exact ⟨mergeIterSpec (dcmp_total rev) SA SB rev rfl,
     mergeR_init (dcmp_total rev) SA SB rev rfl hA hB⟩
 
-theorem Sat.sorted {cmp : Bytes → Bytes → Ordering} {it : AnyIter} {all : List Entry}
+theorem Sat.sorted {cmp : Bytes → Bytes → Ordering} {it : AnyIter} {all : List ItEntry}
     (h : Sat cmp it all) : SortedBy cmp all := by
   obtain ⟨S, _⟩ := h; exact S.sorted_all
 
-theorem newMergeIteratorF_sat (rev : Bool) (fuel : Nat) (ps : List (AnyIter × List Entry))
+theorem newMergeIteratorF_sat (rev : Bool) (fuel : Nat) (ps : List (AnyIter × List ItEntry))
     (hlen : ps.length ≤ fuel) (hne : ps ≠ [])
     (hs : ∀ p ∈ ps, Sat (dcmp rev) p.1 p.2) :
     ∃ it, newMergeIteratorF fuel (ps.map Prod.fst) rev = some it ∧
@@ -180,7 +180,7 @@ theorem newMergeIteratorF_sat (rev : Bool) (fuel : Nat) (ps : List (AnyIter × L
 
 /-- `NewMergeIterator` over any non-empty list of iterators that are cursors over strictly
     sorted lists is a cursor over the sorted union with earliest-input precedence. -/
-theorem C21_newMergeIterator (rev : Bool) (ps : List (AnyIter × List Entry)) (hne : ps ≠ [])
+theorem C21_newMergeIterator (rev : Bool) (ps : List (AnyIter × List ItEntry)) (hne : ps ≠ [])
     (hs : ∀ p ∈ ps, Sat (dcmp rev) p.1 p.2) :
     ∃ it, newMergeIterator (ps.map Prod.fst) rev = some it ∧
       Sat (dcmp rev) it (mergeSpecG (dcmp rev) (ps.map Prod.snd)) := by
@@ -194,17 +194,17 @@ theorem C21_newMergeIterator_empty (rev : Bool) : (newMergeIterator [] rev).isNo
 /-! ## Slice-backed sources as inputs -/
 
 /-- the leaf iterators handed to `NewMergeIterator` -/
-def sourcesOf (inputs : List (List Entry)) (rev : Bool) : List AnyIter :=
+def sourcesOf (inputs : List (List ItEntry)) (rev : Bool) : List AnyIter :=
   inputs.map (fun l => (Source.mk' l rev).toIter)
 
 /-- the entries in iteration order -/
-def dirList (rev : Bool) (l : List Entry) : List Entry := if rev then l.reverse else l
+def dirList (rev : Bool) (l : List ItEntry) : List ItEntry := if rev then l.reverse else l
 
-theorem source_sat (rev : Bool) (l : List Entry) (hs : SortedBy compareKeys l) :
+theorem source_sat (rev : Bool) (l : List ItEntry) (hs : SortedBy compareKeys l) :
     Sat (dcmp rev) (Source.mk' l rev).toIter (dirList rev l) :=
   ⟨sourceSpec l rev hs, ⟨rfl, rfl, rfl, SortedBy.nil⟩⟩
 
-theorem mergeSpecG_dir (rev : Bool) (inputs : List (List Entry))
+theorem mergeSpecG_dir (rev : Bool) (inputs : List (List ItEntry))
     (hs : ∀ l ∈ inputs, SortedBy compareKeys l) :
     mergeSpecG (dcmp rev) (inputs.map (dirList rev)) = dirList rev (mergeSpec inputs) := by
   cases rev
@@ -213,11 +213,11 @@ theorem mergeSpecG_dir (rev : Bool) (inputs : List (List Entry))
   · simp only [dirList, if_true, dcmp_true, mergeSpec]
     exact mergeSpecG_reverse compareKeys_total inputs hs
 
-theorem merge_sources_sat (rev : Bool) (inputs : List (List Entry)) (hne : inputs ≠ [])
+theorem merge_sources_sat (rev : Bool) (inputs : List (List ItEntry)) (hne : inputs ≠ [])
     (hs : ∀ l ∈ inputs, SortedBy compareKeys l) :
     ∃ it, newMergeIterator (sourcesOf inputs rev) rev = some it ∧
       Sat (dcmp rev) it (dirList rev (mergeSpec inputs)) := by
-  let ps : List (AnyIter × List Entry) :=
+  let ps : List (AnyIter × List ItEntry) :=
     inputs.map (fun l => ((Source.mk' l rev).toIter, dirList rev l))
   have h1 : ps.map Prod.fst = sourcesOf inputs rev := by simp [ps, sourcesOf]
   have h2 : ps.map Prod.snd = inputs.map (dirList rev) := by simp [ps]
@@ -230,7 +230,7 @@ theorem merge_sources_sat (rev : Bool) (inputs : List (List Entry)) (hne : input
 /-- **Refinement**: the iterator built by `NewMergeIterator` over `n ≥ 1` sources is
     observationally equivalent — `Valid/Key/Value` after every sequence of
     `Rewind/Seek/Next` calls — to a single source over `mergeSpec inputs`. -/
-theorem C21_refines_source (rev : Bool) (inputs : List (List Entry)) (hne : inputs ≠ [])
+theorem C21_refines_source (rev : Bool) (inputs : List (List ItEntry)) (hne : inputs ≠ [])
     (hs : ∀ l ∈ inputs, SortedBy compareKeys l) :
     ∃ it, newMergeIterator (sourcesOf inputs rev) rev = some it ∧
       ∀ calls : List IterOp,
@@ -249,7 +249,7 @@ theorem C21_refines_source (rev : Bool) (inputs : List (List Entry)) (hne : inpu
     `Next` yields exactly `mergeSpec inputs` (`collect n` is the consumer loop cut off after
     `n` entries; take `n ≥` the length for the whole sequence, and see
     `C21_forward_exhausted`). -/
-theorem C21_forward (inputs : List (List Entry)) (hne : inputs ≠ [])
+theorem C21_forward (inputs : List (List ItEntry)) (hne : inputs ≠ [])
     (hs : ∀ l ∈ inputs, SortedBy compareKeys l) :
     ∃ it, newMergeIterator (sourcesOf inputs false) false = some it ∧
       ∀ (hist : List IterOp) (n : Nat),
@@ -261,7 +261,7 @@ theorem C21_forward (inputs : List (List Entry)) (hne : inputs ≠ [])
   exact S.collect_eq (S.rewind h1) n
 
 /-- after the last entry the iterator is invalid -/
-theorem C21_forward_exhausted (inputs : List (List Entry)) (hne : inputs ≠ [])
+theorem C21_forward_exhausted (inputs : List (List ItEntry)) (hne : inputs ≠ [])
     (hs : ∀ l ∈ inputs, SortedBy compareKeys l) :
     ∃ it, newMergeIterator (sourcesOf inputs false) false = some it ∧
       ∀ (hist : List IterOp) (n : Nat),
@@ -274,7 +274,7 @@ theorem C21_forward_exhausted (inputs : List (List Entry)) (hne : inputs ≠ [])
   exact S.valid_after_nexts (S.rewind h1) n
 
 /-- **Reverse**: with reverse sources and `reverse = true` the sequence is the reversed spec. -/
-theorem C21_reverse (inputs : List (List Entry)) (hne : inputs ≠ [])
+theorem C21_reverse (inputs : List (List ItEntry)) (hne : inputs ≠ [])
     (hs : ∀ l ∈ inputs, SortedBy compareKeys l) :
     ∃ it, newMergeIterator (sourcesOf inputs true) true = some it ∧
       ∀ (hist : List IterOp) (n : Nat),
@@ -288,7 +288,7 @@ theorem C21_reverse (inputs : List (List Entry)) (hne : inputs ≠ [])
 /-- **Seek**: after `Seek k` (from any state) the remaining sequence is the suffix of
     `mergeSpec inputs` starting at the first entry with key `≥ k`; in reverse, the reversed
     prefix ending at the last entry with key `≤ k`. -/
-theorem C21_seek (inputs : List (List Entry)) (hne : inputs ≠ [])
+theorem C21_seek (inputs : List (List ItEntry)) (hne : inputs ≠ [])
     (hs : ∀ l ∈ inputs, SortedBy compareKeys l) :
     (∃ it, newMergeIterator (sourcesOf inputs false) false = some it ∧
       ∀ (hist : List IterOp) (k : Bytes) (n : Nat),
@@ -311,7 +311,7 @@ theorem C21_seek (inputs : List (List Entry)) (hne : inputs ≠ [])
     intro hist k n
     obtain ⟨L', h1⟩ := S.run_R hR hist
     have := S.collect_eq (S.seek k h1) n
-    have hgt : ∀ e : Entry, (dcmp true e.key k == .lt) = (compareKeys e.key k == .gt) := by
+    have hgt : ∀ e : ItEntry, (dcmp true e.key k == .lt) = (compareKeys e.key k == .gt) := by
       intro e
       simp only [dcmp, if_true]
       rw [← compareKeys_total.swap e.key k]
@@ -322,11 +322,11 @@ theorem C21_seek (inputs : List (List Entry)) (hne : inputs ≠ [])
 /-- **Earliest wins**: the spec list is strictly sorted (so every internal key occurs exactly
     once) and contains exactly the entries `e` that occur in the earliest input holding
     an entry with `e`'s key. -/
-theorem C21_earliest_wins (inputs : List (List Entry))
+theorem C21_earliest_wins (inputs : List (List ItEntry))
     (hs : ∀ l ∈ inputs, SortedBy compareKeys l) :
     SortedBy compareKeys (mergeSpec inputs) ∧
     (keysOf (mergeSpec inputs)).Nodup ∧
-    ∀ e : Entry, e ∈ mergeSpec inputs ↔
+    ∀ e : ItEntry, e ∈ mergeSpec inputs ↔
       ∃ i, ∃ h : i < inputs.length, e ∈ inputs[i] ∧
         ∀ j, ∀ hj : j < i, e.key ∉ keysOf (inputs[j]'(Nat.lt_trans hj h)) := by
   have T := compareKeys_total
@@ -362,9 +362,9 @@ theorem C21_earliest_wins (inputs : List (List Entry))
 /-- The iteration bound that the model puts on the `for mi.Valid()` loop of `Next` is never
     what ends the loop: in every positioned state of a `MergeIterator` whose children are
     cursors, the loop is left through its own condition. -/
-theorem C21_next_loop_exits {α β : Type} {A : IterOps α} {B : IterOps β} {allA allB : List Entry}
+theorem C21_next_loop_exits {α β : Type} {A : IterOps α} {B : IterOps β} {allA allB : List ItEntry}
     (rev : Bool) (SA : IterSpec A (dcmp rev) allA) (SB : IterSpec B (dcmp rev) allB)
-    (m : MergeSt α β) (L : List Entry)
+    (m : MergeSt α β) (L : List ItEntry)
     (h : (mergeIterSpec (dcmp_total rev) SA SB rev rfl).R m L) :
     (MergeSt.nextLoop A B (MergeSt.size A B m + 1) m).loopCond = false := by
   cases L with
@@ -382,9 +382,9 @@ theorem C21_next_loop_exits {α β : Type} {A : IterOps α} {B : IterOps β} {al
 
 section Examples
 private def k (c : UInt8) (ts : Nat) : Bytes := keyWithTs [c] ts
-private def in1 : List Entry := [⟨k 0x61 5, [1]⟩, ⟨k 0x62 5, [2]⟩]
-private def in2 : List Entry := [⟨k 0x61 5, [3]⟩, ⟨k 0x61 3, [4]⟩, ⟨k 0x63 1, [5]⟩]
-private def in3 : List Entry := [⟨k 0x60 5, [6]⟩, ⟨k 0x63 1, [7]⟩]
+private def in1 : List ItEntry := [⟨k 0x61 5, [1]⟩, ⟨k 0x62 5, [2]⟩]
+private def in2 : List ItEntry := [⟨k 0x61 5, [3]⟩, ⟨k 0x61 3, [4]⟩, ⟨k 0x63 1, [5]⟩]
+private def in3 : List ItEntry := [⟨k 0x60 5, [6]⟩, ⟨k 0x63 1, [7]⟩]
 
 -- three sorted inputs sharing internal keys (a@5 in 1 and 2; c@1 in 2 and 3)
 example : ∀ l ∈ [in1, in2, in3], SortedBy compareKeys l := by
